@@ -2,7 +2,7 @@
    Everything here is about the tables that tools/gen_units.py regenerates from unit.rs on every run. *)
 From Coq Require Import List ZArith NArith Reals QArith Qreals Bool.
 From Flocq Require Import Core.Core IEEE754.Binary IEEE754.Bits.
-From MV Require Import SFloat.Defs SFloat.Facts SFloat.Str C19.UnitsGen C19.Model C19.Spec C19.Proofs C19.ProofsFloat C19.ProofsValue.
+From MV Require Import SFloat.Defs SFloat.Facts SFloat.Str C19.UnitsGen C19.Model C19.Spec C19.Proofs C19.ProofsFloat C19.ProofsValue C19.ProofsMean.
 Import ListNotations.
 Local Open Scope Q_scope.
 
@@ -185,6 +185,50 @@ Proof. exact convert_body_unchanged. Qed.
 Print Assumptions c19_convert_body_unchanged.
 Local Close Scope R_scope.
 
+(* ---- Mean<U> fed by record_value calls: a rejected value leaves no trace ---- *)
+(* a record_value that returns Err (string, error, another unit than U::UNIT, dimensions) leaves (total, occurrences)
+   exactly as they were, whatever they were *)
+Theorem c19_mean_rejected_leaves_accumulator : forall (expected : unit_) (acc : mean_acc) (c : vcall),
+  rejected expected acc c -> fst (record_call expected acc c) = acc.
+Proof. exact rejected_leaves_accumulator. Qed.
+Print Assumptions c19_mean_rejected_leaves_accumulator.
+
+(* ... so at any position of any sequence of records (after every prefix) the rejected call can be deleted *)
+Theorem c19_mean_rejected_call_can_be_deleted : forall (expected : unit_) (pre : list vcall) (c : vcall) (post : list vcall),
+  rejected expected mean_zero c ->
+  mean_run_calls expected (pre ++ c :: post) = mean_run_calls expected (pre ++ post).
+Proof. exact rejected_call_can_be_deleted. Qed.
+Print Assumptions c19_mean_rejected_call_can_be_deleted.
+
+(* the accumulator after any sequence is the fold over the observations of the accepted calls only *)
+Theorem c19_mean_accepted_only : forall (expected : unit_) (cs : list vcall),
+  mean_run_calls expected cs = fold_left mean_add_obs (accepted_obs expected cs) mean_zero.
+Proof. exact mean_run_is_accepted_only. Qed.
+Print Assumptions c19_mean_accepted_only.
+
+(* the mean that is finally written: nothing when no occurrence was accepted; otherwise one Repeated observation in
+   the mean's unit whose occurrences are exactly those of the accepted observations and whose total is their
+   binary64 running sum, within [error_bound] (per addition: e(1+2^-53) + 2^-53 |partial sum| + 2^-1075) of their
+   exact sum - whatever was rejected, wherever *)
+Theorem c19_mean_quantity : forall (u : tag) (vs : list value),
+  let os := accepted_obs (tag_unit u) (map write vs) in
+  sum_safe 0 os ->
+  (sum_occurrences os = 0%N -> write (MeanSeq u vs) = VNone) /\
+  (sum_occurrences os <> 0%N ->
+     exists t : f64,
+       write (MeanSeq u vs) = VMetric [ORepeated t (sum_occurrences os)] (tag_unit u) [] None /\
+       Binary.is_finite 53 1024 t = true /\
+       R64 t = rounded_sum 0 os /\
+       (Rabs (R64 t - exact_sum 0 os) <= error_bound 0 0 os)%R).
+Proof. exact mean_seq_quantity. Qed.
+Print Assumptions c19_mean_quantity.
+
+(* when every partial sum is representable the total is the exact sum *)
+Theorem c19_mean_total_exact : forall os s, (forall pre o post, os = pre ++ o :: post ->
+     generic_format radix2 fmt64 (exact_sum s (pre ++ [o]))) -> rounded_sum s os = exact_sum s os.
+Proof. exact rounded_sum_exact. Qed.
+Print Assumptions c19_mean_total_exact.
+
 (* non-vacuity *)
 Example c19_example_convertible : convertible T_Terabit T_Kilobyte = true /\ unitless_source T_Terabit = false.
 Proof. split; reflexivity. Qed.
@@ -217,3 +261,19 @@ Proof. vm_compute. reflexivity. Qed.
 Example c19_example_well_typed :
   well_typed (Distribution T_Kilobit [WithUnit (Script T_Gigabyte (VMetric [OUnsigned 3] (U_Byte PS_Giga) [] None)) T_Kilobit]) = true.
 Proof. reflexivity. Qed.
+
+(* the seeded scenario: a raw Duration (Milliseconds) recorded into a Mean<Second> between two honest 2.0 s values is
+   rejected with the code's message and leaves no trace: the mean written is 4.0 over 2 occurrences *)
+Example c19_example_mean_rejects_duration :
+  let two := VMetric [OFloat (f64_of_bits 4611686018427387904)] (U_Second NS_One) [] None in
+  let vs := [Script T_Second two; PDuration 1 500000000; Script T_Second two] in
+  mean_results T_Second vs = [[]; ["value promised to write unit `Seconds` but wrote `Milliseconds` instead"%str]; []] /\
+  rejected (tag_unit T_Second) mean_zero (write (PDuration 1 500000000)) /\
+  match write (MeanSeq T_Second vs) with
+  | VMetric [ORepeated t n] u [] None => f64_bits t = 4616189618054758400%N (* 4.0 *) /\ n = 2%N /\ u = U_Second NS_One
+  | _ => False
+  end.
+Proof. vm_compute. split; [reflexivity|]. split; [discriminate|]. repeat split; reflexivity. Qed.
+(* the premise of c19_mean_quantity is satisfiable *)
+Example c19_example_mean_sum_safe : sum_safe 0 [OFloat (u64_as_f64 2); OFloat (u64_as_f64 40)].
+Proof. apply small_int_sum_safe; vm_compute; discriminate. Qed.
